@@ -20,6 +20,9 @@ def kindJson : Kind → Json
   | .ifexp => Json.arr #["ifexp"]
   | .lambda => Json.arr #["lambda"]
   | .await_ => Json.arr #["await"]
+  | .attr n => Json.arr #["attr", ofNat n]
+  | .subscr => Json.arr #["subscr"]
+  | .call na kws => Json.arr #["call", ofNat na, ofNats kws]
   | _ => Json.arr #["?"]
 
 partial def eJson : E → Json
